@@ -560,6 +560,21 @@ class Sim(object):
                 if new is not None:
                     saved.append((mod, name, val))
                     setattr(mod, name, new)
+        # ... and through class attributes bound at import (`_clock = staticmethod(time.monotonic)`)
+        for mod in (dulprovider, fsm):
+            for cls in [c for c in [getattr(c_, 'sim_base', c_) for c_ in vars(mod).values() if isinstance(c_, type)]
+                        if getattr(c, '__module__', None) == mod.__name__]:
+                for name, raw in list(vars(cls).items()):
+                    target = raw.__func__ if isinstance(raw, (staticmethod, classmethod)) else raw
+                    own = None
+                    if getattr(target, '__self__', None) is not None and \
+                            isinstance(target.__self__, (_FakeSelect, _FakeTime, _FakeSocketModule)):
+                        own = getattr([f for f in fakes.values() if type(f) is type(target.__self__)][0], target.__name__)
+                    elif id(target) in aliases and aliases[id(target)][0] is target:
+                        own = aliases[id(target)][1]
+                    if own is not None:
+                        saved.append((cls, name, raw))
+                        setattr(cls, name, staticmethod(own))
         timer_cls = getattr(dulprovider, 'Timer', None)
         timer_cls = getattr(timer_cls, 'sim_base', timer_cls)
         if not isinstance(timer_cls, type) or not all(callable(getattr(timer_cls, m, None)) for m in ('start', 'stop', 'restart', 'check')):
@@ -586,11 +601,26 @@ class Sim(object):
                 return res
         saved.append((dulprovider, 'Timer', dulprovider.Timer))
         dulprovider.Timer = SimTimer
+        # is the clock the timer reads really the simulated one?  (a tree may reach the real clock by a route that is
+        # not intercepted - a default argument, a closure: then simulated time means nothing and no verdict is possible)
+        probe, before, points = SimTimer(10), self.now, self.points
+        try:
+            probe.start()
+            fresh = probe.check()
+            self.now = before + 11.0
+            expired = probe.check()
+        finally:
+            self.now, self.points, self._spin = before, points, 0
+        if fresh is False or expired is not False:
+            for owner, name, val in saved:
+                setattr(owner, name, val)
+            raise HarnessError('the ARTIM timer of this tree does not run on the simulated clock (check() gave %r at once, '
+                               '%r after 11 simulated seconds): the simulation does not fit this tree' % (fresh, expired))
         try:
             yield
         finally:
-            for mod, name, val in saved:
-                setattr(mod, name, val)
+            for owner, name, val in reversed(saved):
+                setattr(owner, name, val)
 
     def build(self):
         """Create the provider (must be called inside `patched()`); run() is NOT started."""
